@@ -150,11 +150,11 @@ mutual
         match v with
         | .arr vs => let r := mapVals (exec call p) vs n; (.arr r.1, r.2)
         | v => (v, n)
-    | .ptrDcPtr => fun v n =>
+    | .ptrDcPtr _ => fun v n =>
         match v with
         | .ptr _ d => let r := call d (n + 1); (.ptr n r.1, r.2)
         | v => (v, n)
-    | .ptrDcVal => fun v n =>
+    | .ptrDcVal _ => fun v n =>
         match v with
         | .ptr _ d => let r := call d (n + 1); (.ptr n r.1, r.2)
         | v => (v, n)
@@ -166,7 +166,7 @@ mutual
         match v with
         | .ptr _ d => let r := guarded (exec call p) d (n + 1); (.ptr n r.1, r.2)
         | v => (v, n)
-    | .ptrStruct _ => fun v n =>
+    | .ptrStruct _ _ => fun v n =>
         match v with
         | .ptr _ d => let r := call d (n + 1); (.ptr n r.1, r.2)
         | v => (v, n)
